@@ -63,7 +63,7 @@ def main():
     meta['repo_head'] = head
     meta['files'] = sorted(set(re.findall(r'^\+\+\+ b/(\S+)', open(os.path.join(dst, 'patch.diff')).read(), re.M)))
     conf = os.path.join(dst, 'confirm.txt')
-    if os.path.exists(conf):
+    if os.path.exists(conf) and 'demo_with_change_rc=' in open(conf).read():
         t = open(conf).read()
         meta['confirmed'] = {'demo_without_change_rc': int(re.search(r'demo_without_change_rc=(\d+)', t).group(1)),
                              'demo_with_change_rc': int(re.search(r'demo_with_change_rc=(\d+)', t).group(1)),
